@@ -35,6 +35,9 @@ ATTRS = {
     "Def": ["name", "v", "tag"],
     "Box": ["name", "items"],
     "Use": ["name", "refs", "one", "opt", "alt"],
+    "Wrap": ["inner", "e"],      # container of a *scalar* containment attribute
+    "Inner": ["name"],           # contained through a scalar attribute (parent = the Wrap)
+    "Import": ["importURI"],
 }
 COMMON = ["Model", "Import", "Def", "Box", "Use", "Wrap", "Inner"]
 ABSTRACT = ["Item"]
@@ -624,7 +627,10 @@ def draw_cfg(t, prop, nfiles):
         # accept attributes, because the position of an object that rejects
         # them is lost (that is C06's domain, not claimed)
         open_variants = ["plain", "own-dunders", "inherited-dunders"]
-        classes = [(n, t.pick(open_variants if (n == "Model" or prop == "C33") else VARIANTS, "variant"))
+        # Import objects get `_tx_loaded_models` from the ImportURI providers and a Wrap gets its `inner` re-assigned
+        # when a processor replaces the Inner: both need classes that accept attribute assignment after construction
+        classes = [(n, t.pick(open_variants if (n in ("Model", "Import", "Wrap") or prop == "C33") else VARIANTS,
+                              "variant"))
                    for n in names]
     allrules = COMMON + ABSTRACT + MATCH
     if prop in ("C13", "C33"):
